@@ -10,6 +10,7 @@ mod bbi;
 mod refuse;
 mod reader;
 mod slicing;
+mod mergeh;
 
 use serde_json::{json, Value};
 use std::io::{BufRead, BufReader, Write};
@@ -77,6 +78,7 @@ fn main() {
         "refuse" => refuse::run_case,
         "reader" => reader::run_case,
         "slicing" => slicing::run_case,
+        "merge" => mergeh::run_case,
         other => {
             eprintln!("unknown subcommand {}", other);
             std::process::exit(2);
